@@ -29,7 +29,8 @@ pub struct TestRunnerAdapter {
     ctx: Arc<Mutex<CodegenContext>>,
     event_sender: Sender<MachineEvent>,
     event_receiver: Receiver<MachineEvent>,
-    breakpoints: Arc<Mutex<Vec<MachineBreakpoint>>>,
+    /// The breakpoints of every source file, as they were last set for that file
+    breakpoints: Arc<Mutex<HashMap<String, Vec<MachineBreakpoint>>>>,
     /// The address the machine was resumed at. The instruction at that address gets executed without looking at its
     /// breakpoint (otherwise the machine could never leave a breakpoint); every later arrival at any address is checked.
     resumed_at: Arc<Mutex<Option<ProgramCounter>>>,
@@ -44,7 +45,8 @@ impl TestRunnerAdapter {
     ) -> MosResult<Self> {
         let is_connected = Arc::new(AtomicBool::new(true));
         let state = Arc::new(Mutex::new(MachineRunningState::Launching));
-        let breakpoints: Arc<Mutex<Vec<MachineBreakpoint>>> = Arc::new(Mutex::new(vec![]));
+        let breakpoints: Arc<Mutex<HashMap<String, Vec<MachineBreakpoint>>>> =
+            Arc::new(Mutex::new(HashMap::new()));
         let resumed_at: Arc<Mutex<Option<ProgramCounter>>> = Arc::new(Mutex::new(None));
 
         let (event_sender, event_receiver) = unbounded();
@@ -77,7 +79,8 @@ impl TestRunnerAdapter {
                             if !just_resumed_here && !no_debug {
                                 let bps = thread_breakpoints.lock().unwrap();
                                 if bps
-                                    .iter()
+                                    .values()
+                                    .flatten()
                                     .any(|bp| bp.range.start <= pc && bp.range.end > pc)
                                 {
                                     let mut state = thread_state.lock().unwrap();
@@ -295,7 +298,11 @@ impl MachineAdapter for TestRunnerAdapter {
         source_path: &str,
         breakpoints: Vec<MachineBreakpoint>,
     ) -> MosResult<Vec<MachineValidatedBreakpoint>> {
-        *self.breakpoints.lock().unwrap() = breakpoints.clone();
+        // The debugger sets the breakpoints of one source file at a time; those of other files stay as they are
+        self.breakpoints
+            .lock()
+            .unwrap()
+            .insert(source_path.into(), breakpoints.clone());
         Ok(breakpoints
             .into_iter()
             .enumerate()
